@@ -179,7 +179,7 @@ def real_stdout():
 
 # ----------------------------------------------------------------------------- run-time records
 class Handle:
-    __slots__ = ('h', 'shape', 'ops', 'exact', 'caps', 'op', 'creator', 'creator_ctx', 'jitfn', 'jit_ctx_entry')
+    __slots__ = ('h', 'shape', 'ops', 'exact', 'caps', 'op', 'creator', 'creator_ctx', 'jitfn', 'jit_ctx_entry', 'structural')
 
     def __init__(self, h, shape, ops, exact, caps, op, creator, creator_ctx):
         self.h = h
@@ -192,6 +192,7 @@ class Handle:
         self.creator_ctx = creator_ctx
         self.jitfn = None
         self.jit_ctx_entry = None
+        self.structural = True
 
 
 class Actor:
@@ -729,18 +730,22 @@ class Run:
             self.violate(fr, 'N', {'site': 'create', 'shape': shape, 'why': exc_text(exc)})
             return
         invs = find_inverses(op)
-        caps_obs = [palette.observe(inv.config) for inv in invs]
         exp_caps = [self.top(fr)] * fresh + [c for h in inner for c in h.caps]
+        # The captured configuration is looked at structurally (`InverseOperator.config`) only when the
+        # operator contains the inverse operators the current tree builds.  An implementation is free
+        # to represent a lazy inverse differently; such a handle is judged by behaviour alone (clause U).
+        caps_obs = observe_captures(invs, len(exp_caps))
         h = len(self.handles)
         handle = Handle(h, shape, ops, exact, [dict(c) for c in exp_caps], op, fr.actor.aid, fr.ctx)
+        handle.structural = caps_obs is not None
         self.log(
             fr,
             'create',
             {'h': h, 'shape': shape, 'ops': ops, 'exact': exact, 'fresh': fresh, 'inner': [x.h for x in inner], 'caps': caps_obs},
         )
-        if len(invs) != len(exp_caps):
-            raise HarnessError(f'shape {shape}: found {len(invs)} inverse operators, expected {len(exp_caps)}')
-        if caps_obs != exp_caps:
+        if caps_obs is None:
+            self.probe('handle_judged_by_behaviour_only')
+        elif caps_obs != exp_caps:
             self.violate(fr, 'K', {'site': 'create', 'shape': shape, 'caps': caps_obs, 'expected': exp_caps})
         self.handles.append(handle)
         fr.actor.own_handles.append(h)
@@ -779,16 +784,17 @@ class Run:
             self.violate(fr, 'N', {'site': 'roundtrip:' + kind, 'why': exc_text(exc)})
             return
         invs = find_inverses(op)
-        caps_obs = [palette.observe(inv.config) for inv in invs]
+        caps_obs = observe_captures(invs, len(src.caps)) if src.structural else None
         h = len(self.handles)
         self.log(
             fr,
             'derive',
             {'h': h, 'src': src.h, 'kind': kind, 'shape': src.shape, 'ops': src.ops, 'exact': exact, 'caps': caps_obs},
         )
-        if caps_obs != src.caps:
+        if caps_obs is not None and caps_obs != src.caps:
             self.violate(fr, 'K', {'site': 'derive:' + kind, 'caps': caps_obs, 'expected': src.caps})
         handle = Handle(h, src.shape, src.ops, exact, [dict(c) for c in src.caps], op, src.creator, src.creator_ctx)
+        handle.structural = caps_obs is not None
         self.handles.append(handle)
         fr.actor.own_handles.append(h)
         if self.top(fr) != src.caps[0]:
@@ -851,7 +857,9 @@ class Run:
             self.faults['stdout'] += 1
             self.probe('stdout_fault_' + mode)
         fired = self.decode_sink(sink, handle)
-        caps_after = [palette.observe(inv.config) for inv in find_inverses(handle.op)]
+        caps_after = None
+        if handle.structural:
+            caps_after = observe_captures(find_inverses(handle.op), len(handle.caps))
         obs = self.quiet_read(fr)
         # the class JAX surfaces for a failure inside a compiled computation is not stable
         # (JaxRuntimeError or ValueError for the same failing host callback): log a category
@@ -892,7 +900,7 @@ class Run:
         complaint = model.judge_apply(pred, rname, fired, fault_fired, handle.shape, handle.caps)
         if complaint:
             self.violate(fr, 'U', {'site': 'apply', 'h': handle.h, 'mode': mode, 'why': complaint, 'raised': exc_text(raised) if raised is not None else None})
-        if caps_after != handle.caps:
+        if caps_after is not None and caps_after != handle.caps:
             self.violate(fr, 'U', {'site': 'apply:captured-mutated', 'caps': caps_after, 'expected': handle.caps})
         self.expect(fr, 'U', obs, active, {'what': 'active configuration changed by an apply'})
         if raised is not None:
@@ -1412,6 +1420,20 @@ def _iter(body):
     from .program import iter_statements
 
     return iter_statements(body)
+
+
+def observe_captures(invs: list, expected: int) -> list | None:
+    """Captured configurations as tags, or None when the operator is not built the way the current
+    tree builds it (other number of InverseOperators, no `config` field): behaviour decides then."""
+    if len(invs) != expected:
+        return None
+    out = []
+    for inv in invs:
+        cfg = getattr(inv, 'config', None)
+        if cfg is None or not all(hasattr(cfg, f) for f in ('solver', 'solver_throw', 'solver_options', 'solver_callback')):
+            return None
+        out.append(palette.observe(cfg))
+    return out
 
 
 def find_inverses(op) -> list:
